@@ -29,27 +29,49 @@ def serialise(v):
     return pickle.loads(pickle.dumps(v))
 
 
+def _same(a, b):
+    """structural equality of exchanged values (symbolic leaves compared by term)"""
+    if isinstance(a, Sym) or isinstance(b, Sym):
+        return isinstance(a, Sym) and isinstance(b, Sym) and a.t.eq(b.t)
+    if isinstance(a, np.ndarray) or isinstance(b, np.ndarray):
+        if not (isinstance(a, np.ndarray) and isinstance(b, np.ndarray)) or a.shape != b.shape:
+            return False
+        return all(_same(x, y) for x, y in zip(a.ravel().tolist() if a.dtype != object else list(a.ravel()),
+                                                b.ravel().tolist() if b.dtype != object else list(b.ravel())))
+    if isinstance(a, (list, tuple)) or isinstance(b, (list, tuple)):
+        return type(a) is type(b) and len(a) == len(b) and all(_same(x, y) for x, y in zip(a, b))
+    if isinstance(a, float) and isinstance(b, float) and a != a and b != b:
+        return True
+    try:
+        return bool(a == b)
+    except Exception:
+        return a is b
+
+
 class World(object):
     def __init__(self, size):
         self.size = size
         self.rank = 0
-        self.phase = 'record'
-        self.offers = {r: [] for r in range(size)}
+        self.prev = {r: [] for r in range(size)}      # offers of the previous pass
+        self.offers = {r: [] for r in range(size)}    # offers of the current pass
         self.k = 0
-        self.mismatch = False
+        self.incomplete = False
 
     def collective(self, value):
         r = self.rank
-        if self.phase == 'record':
-            self.offers[r].append(value)
-            return [serialise(value) for _ in range(self.size)]
         k = self.k
         self.k += 1
-        try:
-            return [serialise(self.offers[q][k]) for q in range(self.size)]
-        except IndexError:
-            self.mismatch = True
-            raise RuntimeError('collective call count differs between ranks (deadlock in real MPI)')
+        self.offers[r].append(value)
+        out = []
+        for q in range(self.size):
+            if q == r:
+                out.append(serialise(value))
+            elif k < len(self.prev[q]):
+                out.append(serialise(self.prev[q][k]))
+            else:
+                self.incomplete = True          # partner's offer not known yet: placeholder, another pass follows
+                out.append(serialise(value))
+        return out
 
 
 class _Comm(object):
@@ -110,25 +132,44 @@ def _clear():
             pass
 
 
-def run_ranks(size, fn):
-    """fn(rank) -> result ; returns [result per rank] from phase 2"""
+def run_ranks(size, fn, max_passes=6):
+    """fn(rank) -> result.  Ranks run one after another; the pass is repeated, each rank being served the other
+    ranks' offers of the previous pass, until every collective was served real values and the offers no longer
+    change (fixpoint).  A rank that calls fewer/more collectives than its partners (a deadlock under real MPI) or a
+    sequence that does not stabilise raises RuntimeError."""
     world = World(size)
     install(world)
     try:
-        for r in range(size):
-            world.rank = r
-            _clear()
-            try:
-                fn(r)
-            except Exception:
-                pass
-        world.phase = 'serve'
-        results = []
-        for r in range(size):
-            world.rank = r
-            world.k = 0
-            _clear()
-            results.append(fn(r))
+        results = None
+        for p in range(max_passes):
+            world.offers = {r: [] for r in range(size)}
+            world.incomplete = False
+            res, errs = [], []
+            for r in range(size):
+                world.rank = r
+                world.k = 0
+                _clear()
+                try:
+                    res.append(fn(r))
+                    errs.append(None)
+                except Exception as ex:
+                    res.append(None)
+                    errs.append(ex)
+            stable = (not world.incomplete) and all(
+                len(world.offers[r]) == len(world.prev[r]) and all(_same(x, y) for x, y in zip(world.offers[r], world.prev[r]))
+                for r in range(size))
+            world.prev = world.offers
+            if stable:
+                for ex in errs:
+                    if ex is not None:
+                        raise ex
+                counts = {len(world.offers[r]) for r in range(size)}
+                if len(counts) != 1:
+                    raise RuntimeError('collective call count differs between ranks (deadlock in real MPI): %s' % counts)
+                results = res
+                break
+        if results is None:
+            raise RuntimeError('rank emulation did not reach a fixpoint in %d passes' % max_passes)
         return results
     finally:
         uninstall()
